@@ -1,0 +1,24 @@
+//go:build verif
+
+package bfd
+
+// Verif exports of the state machine for the verification harness.
+
+type VerifState = state
+type VerifEvent = event
+
+const (
+	VerifStateAdminDown = stateAdminDown
+	VerifStateDown      = stateDown
+	VerifStateInit      = stateInit
+	VerifStateUp        = stateUp
+
+	VerifEventAdminDown = eventAdminDown
+	VerifEventDown      = eventDown
+	VerifEventInit      = eventInit
+	VerifEventUp        = eventUp
+	VerifEventTimer     = eventTimer
+	VerifEventAdminUp   = eventAdminUp
+)
+
+func VerifTransition(s VerifState, e VerifEvent) VerifState { return transition(s, e) }
